@@ -287,3 +287,209 @@ Proof.
   intros Hwl s Hr. destruct (reachable_invs P ths s Hwl Hr) as [A [B C]].
   eapply no_race_inv; eauto. destruct Hwl as [_ U]. exact U.
 Qed.
+
+(* ================================================================ access tables *)
+Lemma In_removeN_intro m x l : In x l -> x <> m -> In x (removeN m l).
+Proof.
+  induction l as [|a l IH]; cbn [removeN In]; [tauto|].
+  intros [->|H] Hne.
+  - destruct (N.eqb m x) eqn:E; [apply N.eqb_eq in E; congruence | left; reflexivity].
+  - destruct (N.eqb m a); [auto | right; auto].
+Qed.
+
+Lemma removeN_not_In m l : ~ In m (removeN m l).
+Proof.
+  induction l as [|a l IH]; cbn [removeN]; [tauto|].
+  destruct (N.eqb m a) eqn:E; [exact IH|]. cbn [In]. intros [->|H]; [rewrite N.eqb_refl in E; discriminate | tauto].
+Qed.
+
+Lemma w_after_incl a w w' : incl w w' -> incl (w_after a w) (w_after a w').
+Proof.
+  intros H. destruct a; cbn [w_after]; auto.
+  - intros x [->|Hx]; [left; reflexivity | right; auto].
+  - intros x Hx. destruct (N.eq_dec x m) as [->|Hne]; [exfalso; eapply removeN_not_In; eauto|].
+    apply In_removeN_intro; [apply H; eapply In_removeN; eauto | exact Hne].
+Qed.
+
+Lemma r_after_incl a r r' : incl r r' -> incl (r_after a r) (r_after a r').
+Proof.
+  intros H. destruct a; cbn [r_after]; auto.
+  - intros x [->|Hx]; [left; reflexivity | right; auto].
+  - intros x Hx. destruct (N.eq_dec x m) as [->|Hne]; [exfalso; eapply removeN_not_In; eauto|].
+    apply In_removeN_intro; [apply H; eapply In_removeN; eauto | exact Hne].
+Qed.
+
+Lemma memN_incl m l l' : incl l l' -> memN m l = true -> memN m l' = true.
+Proof. intros H. rewrite !memN_In. auto. Qed.
+
+Lemma access_ok_mono P lab w r w' r' a : incl w w' -> incl r r' ->
+  access_ok P lab w r a = true -> access_ok P lab w' r' a = true.
+Proof.
+  intros Hw Hr. destruct a; cbn [access_ok]; auto; destruct (P x) as [[m|t| |]|]; auto.
+  - intros H. apply orb_true_iff in H. apply orb_true_iff.
+    destruct H; [left | right]; eapply memN_incl; eauto.
+  - apply memN_incl; auto.
+  - apply memN_incl; auto.
+Qed.
+
+(* holding more never hurts *)
+Lemma scan_mono P lab p : forall w r w' r', incl w w' -> incl r r' ->
+  scan P lab w r p = true -> scan P lab w' r' p = true.
+Proof.
+  induction p as [|a p IH]; intros w r w' r' Hw Hr; cbn [scan]; [auto|].
+  intros H. apply andb_true_iff in H. destruct H as [H1 H2]. apply andb_true_iff. split.
+  - eapply access_ok_mono; eauto.
+  - eapply IH; [| |exact H2]; [apply w_after_incl | apply r_after_incl]; auto.
+Qed.
+
+Lemma scan_app P lab p q : forall w r,
+  scan P lab w r p = true -> scan P lab [] [] q = true -> scan P lab w r (p ++ q) = true.
+Proof.
+  induction p as [|a p IH]; intros w r Hp Hq; cbn [app].
+  - eapply scan_mono; [| |exact Hq]; intros x [].
+  - cbn [scan] in *. apply andb_true_iff in Hp. destruct Hp as [H1 H2]. apply andb_true_iff. split; auto.
+Qed.
+
+Definition is_sync (a : action) : bool :=
+  match a with ARead _ | AWrite _ | AAtomic _ => false | _ => true end.
+
+Lemma access_ok_sync P lab w r a : is_sync a = true -> access_ok P lab w r a = true.
+Proof. destruct a; cbn; auto; discriminate. Qed.
+
+Definition ws_after (p : list action) (w : list N) : list N := fold_left (fun w a => w_after a w) p w.
+Definition rs_after (p : list action) (r : list N) : list N := fold_left (fun r a => r_after a r) p r.
+
+Lemma scan_sync_prefix P lab p q : forallb is_sync p = true -> forall w r,
+  scan P lab w r (p ++ q) = scan P lab (ws_after p w) (rs_after p r) q.
+Proof.
+  induction p as [|a p IH]; intros Hs w r; cbn [app ws_after rs_after fold_left]; [reflexivity|].
+  cbn [forallb] in Hs. apply andb_true_iff in Hs. destruct Hs as [Ha Hp].
+  cbn [scan]. rewrite access_ok_sync by exact Ha. cbn [andb]. apply IH. exact Hp.
+Qed.
+
+Lemma scan_sync P lab p : forallb is_sync p = true -> forall w r, scan P lab w r p = true.
+Proof.
+  intros Hs w r. rewrite <- (app_nil_r p). rewrite scan_sync_prefix by exact Hs. reflexivity.
+Qed.
+
+Lemma sync_map_lock l : forallb is_sync (map ALock l) = true.
+Proof. induction l; cbn; auto. Qed.
+Lemma sync_map_rlock l : forallb is_sync (map ARLock l) = true.
+Proof. induction l; cbn; auto. Qed.
+Lemma sync_map_unlock l : forallb is_sync (map AUnlock l) = true.
+Proof. induction l; cbn; auto. Qed.
+Lemma sync_map_runlock l : forallb is_sync (map ARUnlock l) = true.
+Proof. induction l; cbn; auto. Qed.
+
+Lemma ws_after_locks l : forall w, incl l (ws_after (map ALock l) w) /\ incl w (ws_after (map ALock l) w).
+Proof.
+  induction l as [|m l IH]; intros w; cbn [map ws_after fold_left w_after].
+  - split; [intros x [] | apply incl_refl].
+  - destruct (IH (m :: w)) as [A B]. unfold ws_after in A, B. split.
+    + intros x [->|Hx]; [apply B; left; reflexivity | apply A; exact Hx].
+    + intros x Hx. apply B. right. exact Hx.
+Qed.
+
+Lemma rs_after_rlocks l : forall r, incl l (rs_after (map ARLock l) r) /\ incl r (rs_after (map ARLock l) r).
+Proof.
+  induction l as [|m l IH]; intros r; cbn [map rs_after fold_left r_after].
+  - split; [intros x [] | apply incl_refl].
+  - destruct (IH (m :: r)) as [A B]. unfold rs_after in A, B. split.
+    + intros x [->|Hx]; [apply B; left; reflexivity | apply A; exact Hx].
+    + intros x Hx. apply B. right. exact Hx.
+Qed.
+
+Lemma ws_after_rlocks l w : ws_after (map ARLock l) w = w.
+Proof. revert w. induction l; intros w; cbn; auto. Qed.
+Lemma rs_after_locks l r : rs_after (map ALock l) r = r.
+Proof. revert r. induction l; intros r; cbn; auto. Qed.
+
+(* the code around one site passes the static check when the site is covered by the protection *)
+Lemma scan_block P e : live e = true -> entry_ok P e = true -> scan P (a_role e) [] [] (block e) = true.
+Proof.
+  intros Hl He. unfold entry_ok in He. rewrite Hl in He. cbn [negb orb] in He.
+  unfold block.
+  rewrite scan_sync_prefix by apply sync_map_lock.
+  rewrite scan_sync_prefix by apply sync_map_rlock.
+  cbn [app scan]. apply andb_true_iff. split.
+  - eapply access_ok_mono; [| |exact He].
+    + rewrite ws_after_rlocks. apply (ws_after_locks (a_w e) []).
+    + apply (rs_after_rlocks (a_r e)).
+  - apply scan_sync. rewrite forallb_app. rewrite sync_map_runlock, sync_map_unlock. reflexivity.
+Qed.
+
+Lemma scan_from_blocks P t r p :
+  (forall e, In e t -> entry_ok P e = true) -> from_blocks t r p -> scan P r [] [] p = true.
+Proof.
+  intros Hall Hfb. induction Hfb as [|e p Hin Hl Hr Hfb IH]; [reflexivity|].
+  apply scan_app; [|exact IH]. subst r. apply scan_block; auto.
+Qed.
+
+Lemma prot_of_confined_single single t x lab :
+  prot_of single t x = Some (PConfined lab) -> single lab = true.
+Proof.
+  unfold prot_of. destruct (entries_of t x) as [|e0 es]; [discriminate|].
+  destruct (forallb _ (e0 :: es)); [discriminate|].
+  destruct (forallb _ (e0 :: es)); [discriminate|].
+  destruct (common_lock (e0 :: es)); [discriminate|].
+  destruct (single (a_role e0)) eqn:E; cbn [andb]; [|discriminate].
+  destruct (forallb _ (e0 :: es)); [|discriminate].
+  intros H. inversion H; subst. exact E.
+Qed.
+
+(* TABLE SOUNDNESS: if the table passes the decidable check, every pool made of the table's sites
+   (any number of foreground threads, any order and repetition of sites) follows the discipline *)
+Theorem table_well_locked single t ths :
+  locktable_ok single t = true -> conforms single t ths -> well_locked (prot_of single t) ths.
+Proof.
+  intros Hok [Hfb Hsingle]. unfold locktable_ok in Hok. rewrite forallb_forall in Hok. split.
+  - intros run lab p Hin. eapply scan_from_blocks; eauto.
+  - intros x lab Hp. apply Hsingle. eapply prot_of_confined_single; eauto.
+Qed.
+
+Theorem table_sound single t ths :
+  locktable_ok single t = true -> conforms single t ths ->
+  forall s, reachable (init_state ths) s -> ~ race s.
+Proof.
+  intros Hok Hc. apply (lockset_sound (prot_of single t)). apply table_well_locked; auto.
+Qed.
+
+(* ---------------------------------------------------------------- the canonical program *)
+Lemma from_blocks_flat_map t r l :
+  (forall e, In e l -> In e t /\ live e = true /\ a_role e = r) -> from_blocks t r (flat_map block l).
+Proof.
+  induction l as [|e l IH]; intros H; cbn [flat_map]; [constructor|].
+  destruct (H e (or_introl eq_refl)) as [A [B C]].
+  constructor; auto. apply IH. intros e' He'. apply H. right. exact He'.
+Qed.
+
+Lemma labels_program_of t : labels_of (program_of t) = seq 1 (nroles t - 1).
+Proof.
+  unfold labels_of, program_of. rewrite map_map. cbn. apply map_id.
+Qed.
+
+Lemma program_of_conforms t : conforms (fun _ => true) t (program_of t).
+Proof.
+  split.
+  - intros run lab p Hin. unfold program_of in Hin. apply in_map_iff in Hin.
+    destruct Hin as [r [Heq _]]. inversion Heq; subst. unfold prog_of_role.
+    apply from_blocks_flat_map. intros e He. apply filter_In in He. destruct He as [A B].
+    apply andb_true_iff in B. destruct B as [B1 B2]. apply Nat.eqb_eq in B2. auto.
+  - intros r _ i j Hi Hj. rewrite labels_program_of in Hi, Hj.
+    assert (Li : i < nroles t - 1).
+    { rewrite <- (seq_length (nroles t - 1) 1). apply nth_error_Some. congruence. }
+    assert (Lj : j < nroles t - 1).
+    { rewrite <- (seq_length (nroles t - 1) 1). apply nth_error_Some. congruence. }
+    rewrite (nth_error_nth' _ 0) in Hi by (rewrite seq_length; exact Li).
+    rewrite (nth_error_nth' _ 0) in Hj by (rewrite seq_length; exact Lj).
+    rewrite seq_nth in Hi, Hj by assumption. inversion Hi. inversion Hj. lia.
+Qed.
+
+Theorem program_of_well_locked t :
+  locktable_ok (fun _ => true) t = true -> well_locked (prot_of (fun _ => true) t) (program_of t).
+Proof. intros H. apply table_well_locked; [exact H | apply program_of_conforms]. Qed.
+
+Theorem program_of_race_free t :
+  locktable_ok (fun _ => true) t = true ->
+  forall s, reachable (init_state (program_of t)) s -> ~ race s.
+Proof. intros H. apply (table_sound (fun _ => true) t); [exact H | apply program_of_conforms]. Qed.
